@@ -123,8 +123,19 @@ def sym_datetime_us(c, tag, whole_seconds=True):
 def iso_text(ticks, unit):
     """str(datetime) / str(date): the ISO text of the value, which loses nothing.  A plain str (so that type inference in the
     code under test sees a string) with a private-use marker; the ticks it stands for are kept in the path's notes"""
+    t = z3.simplify(ticks) if z3.is_expr(ticks) else z3.BitVecVal(int(ticks), 64)
+    if z3.is_bv_value(t):
+        v = t.as_signed_long()
+        if v == INT64_MIN: return "NaT"
+        try:
+            if unit == "ms": return str(to_py(v * 1000, "us"))
+            if unit in ("D", "s", "us"): return str(to_py(v, unit))
+        except (OverflowError, ValueError):
+            pass
     c = symx.ctx()
     reg = c.notes.setdefault("iso", {})
+    for text, (tk, u) in reg.items():
+        if u == unit and z3.eq(z3.simplify(tk), t): return text       # the same value gives the same text
     text = f"\ue100iso{len(reg)}\ue101"
     reg[text] = (ticks, unit)
     return text
